@@ -18,8 +18,8 @@ from ..ctx import stable_hash
 
 ID = "C14"
 LEVEL = "fault_enumeration"
-TIERS = {"quick": {"shards": 16, "budget_s": 35, "streams": 2, "max_blocks": 12, "schedules_per_point": 3, "line_runs": 6, "sigint": 4, "systematic_pipelines": 1, "systematic_deviations": 1},
-         "thorough": {"shards": 16, "budget_s": 540, "streams": 14, "max_blocks": 40, "schedules_per_point": 12, "line_runs": 300, "sigint": 64, "systematic_pipelines": 4, "systematic_deviations": 2}}
+TIERS = {"quick": {"shards": 16, "budget_s": 120, "streams": 2, "max_blocks": 12, "schedules_per_point": 3, "line_runs": 6, "sigint": 4, "systematic_pipelines": 1, "systematic_deviations": 1},
+         "thorough": {"shards": 16, "budget_s": 900, "streams": 14, "max_blocks": 40, "schedules_per_point": 12, "line_runs": 300, "sigint": 64, "systematic_pipelines": 4, "systematic_deviations": 2}}
 RULE = ("Fault enumeration of the stop point: for each generated stream of n blocks the scheduled main thread calls stop_all() "
         "after k source reads have started, for EVERY k in 0..n+2 (before the first read, between any two reads, after the "
         "last, after the stream ended), each at several scheduler steps inside that interval, and the interleaving of all "
